@@ -32,8 +32,10 @@ ObsMatchesNext(p) ==
     /\ p.tag = tag'
     /\ p.payload = payload'
     /\ IF slot' = "ready" THEN p.chain = "ready" ELSE p.chain = Chain'
-    /\ \A r \in Resolvers : p.pend[r] = RPend(r)' /\ p.res[r] = rres'[r]
-    /\ \A w \in Waiters : /\ p.pend[w] = wpc'[w]
+    (* a thread logged as parked at a pure load where the specification has it elsewhere is tolerated: the load is
+       then consumed by TSilentLoad *)
+    /\ \A r \in Resolvers : (p.pend[r] = RPend(r)' \/ p.pend[r] = "dload") /\ p.res[r] = rres'[r]
+    /\ \A w \in Waiters : /\ (p.pend[w] = wpc'[w] \/ p.pend[w] = "check")
                           /\ p.resumes[w] = resumes'[w]
                           /\ p.seen[w].tag = seen'[w].tag /\ p.seen[w].payload = seen'[w].payload
     /\ \A w \in WCb : p.cbnext[w] = nxt'[w]
@@ -61,6 +63,18 @@ TStep ==
     /\ l' = l + 1
     /\ LET p == TraceLog[l].p IN ObsMatchesNext(p)
 
+(* A logged pure load that the specification does not perform at this point (the thread's pc is elsewhere): a load
+   cannot change the protocol state, so it is accepted as a stuttering step provided the observation still matches. *)
+TSilentLoad ==
+    /\ l <= Len(TraceLog)
+    /\ Line.a \in {"CheckReady", "DLoad"}
+    /\ LET t == Line.t IN
+         \/ (t \in Waiters /\ wpc[t] # "check")
+         \/ (t \in Resolvers /\ rpc[t] \notin {"dload_own", "dload_null", "dload_p_own", "dload_p_null"})
+    /\ UNCHANGED vars
+    /\ l' = l + 1
+    /\ LET p == TraceLog[l].p IN ObsMatchesNext(p)
+
 (* a run ended: the specification must be in a terminal state as well (no lost wake-up) *)
 TReset ==
     /\ l <= Len(TraceLog)
@@ -85,7 +99,7 @@ TReset ==
     /\ seen' = [w \in Waiters |-> NoRes]
     /\ resumes' = [w \in Waiters |-> 0]
 
-TNext == TStep \/ TReset
+TNext == TStep \/ TSilentLoad \/ TReset
 TSpec == TInit /\ [][TNext]_tvars
 
 (* accepted iff the whole log was consumed (checked as a post-condition, deadlock checking off) *)
